@@ -2,6 +2,7 @@ import PugModel.Driver.Decode
 import PugModel.Tpl.Compile
 import PugModel.JS.Spec
 import PugModel.Pug.Spec
+import PugModel.Pug.AttrSpec
 /-! `render` cases: structured pug document + JSON data → the model's output class and bytes. -/
 namespace Pug.Driver
 open Lean Pug Pug.Tpl
@@ -33,7 +34,7 @@ def builtinNames : List String :=
   ++ Gen.helperIdents.map (·.1) ++ Gen.helperClosures.map (·.1)
 
 def engineFuncs : List String :=
-  ["Math", "Object", "JSON", "startsWith", "truncate", "stripTags", "capitalize", "trim", "escapeHtml", "parseInt"]
+  ["Math", "Object", "JSON", "startsWith", "truncate", "stripTags", "capitalize", "trim", "escapeHtml", "parseInt", "vpIdent"]
 
 def initState (data : Json) : St :=
   let (h, v) := convertData data Heap.empty
@@ -111,12 +112,25 @@ def pugSpec (doc : List Node) (data : Json) : Json :=
   | .whileCap => clsOut "exec-error" "while cap"
   | .undef w => clsOut "spec-domain" w
 
+/-- C05 oracle: expected attributes of the first tag of the document -/
+def attrSpec (doc : List Node) (data : Json) : Json :=
+  let ρ : JS.Env := match jsOfJson data with
+    | .obj ps => ps
+    | _ => []
+  match doc with
+  | .tag _ _ attrs ablocks _ :: _ =>
+    match Spec.expectedAttrs ρ attrs ablocks with
+    | some rows => Json.mkObj [("class", "ok"), ("attrs", Json.arr (rows.toArray.map fun (n, v) => Json.arr #[n, v]))]
+    | none => clsOut "spec-domain"
+  | _ => clsOut "spec-domain"
+
 def runRender (c : Json) : Json × Json :=
   match (jarr c "doc").mapM decNode with
   | .error e => (clsOut "model-domain" ("decode: " ++ e), .null)
   | .ok doc =>
     let spec := if jstr c "oracle" == "js-expr" then jsSpec doc (jget c "data")
-      else if jstr c "oracle" == "pug" then pugSpec doc (jget c "data") else .null
+      else if jstr c "oracle" == "pug" then pugSpec doc (jget c "data")
+      else if jstr c "oracle" == "attrs" then attrSpec doc (jget c "data") else .null
     if jstr c "modes" == "both" then
       (Json.mkObj [("prod", renderModel doc (jget c "data") (jstrs c "funcs") false),
                    ("debug", renderModel doc (jget c "data") (jstrs c "funcs") true)], spec)
